@@ -75,6 +75,7 @@ type vC11SReq struct {
 	wtime   int
 	called  atomic.Bool
 	entered atomic.Bool
+	endAt   atomic.Int64
 	relCh   chan struct{}
 	relOnce sync.Once
 	cancelF context.CancelFunc
@@ -137,12 +138,17 @@ func vC11SClassify(m *dns.Msg) int {
 	}
 }
 
-type vC11SFront struct{ reqs *[]*vC11SReq }
+type vC11SFront struct {
+	reqs  *[]*vC11SReq
+	start *time.Time
+}
 
 func (f *vC11SFront) Name() string { return "verif-c11-front" }
 func (f *vC11SFront) ServeDNS(ctx context.Context, ch *middleware.Chain) {
 	if id := int(ch.Request.ID()); id >= 1 && id <= len(*f.reqs) {
-		(*f.reqs)[id-1].entered.Store(true)
+		rq := (*f.reqs)[id-1]
+		rq.entered.Store(true)
+		defer func() { rq.endAt.Store(int64(time.Since(*f.start) / time.Millisecond)) }()
 	}
 	ch.Next(ctx)
 }
@@ -198,6 +204,7 @@ type vC11SScenario struct {
 	qt                     int // query timeout ms
 	reqs                   []*vC11SReq
 	events                 []vC11SEvent
+	faults                 map[int][]int // event index -> directives for every sender (n>0: short count n, 0: refuse)
 	mode                   string
 }
 
@@ -321,12 +328,38 @@ func vC11SGen(r *rand.Rand) *vC11SScenario {
 		// a tick at the request's own deadline so that the client socket is polled then
 		sc.events = append(sc.events, vC11SEvent{rq.arrive - rq.age + sc.qt, 4, i})
 	}
+	if !queueing && r.Intn(2) == 0 {
+		// one receive cycle carrying several datagrams for a name that is already cached:
+		// the inline pass answers them all and their replies leave as ONE transmit batch
+		warm := &vC11SReq{name: 7, path: r.Intn(2), arrive: pick(1, 9), hold: 0, atts: []vC11SAtt{{0, false}}, cancel: -1, release: -1}
+		sc.reqs = append(sc.reqs, warm)
+		wi := len(sc.reqs) - 1
+		sc.events = append(sc.events, vC11SEvent{warm.arrive, 0, wi}, vC11SEvent{warm.arrive + sc.qt, 4, wi})
+		at := pick(base+400, base+600)
+		for k := 0; k < 2+r.Intn(5); k++ {
+			rq := &vC11SReq{name: 7, path: 2, arrive: at, hold: 0, atts: followAtts, cancel: -1, release: -1}
+			sc.reqs = append(sc.reqs, rq)
+			sc.events = append(sc.events, vC11SEvent{at, 0, len(sc.reqs) - 1}, vC11SEvent{at + sc.qt, 4, len(sc.reqs) - 1})
+		}
+	}
 	sort.SliceStable(sc.events, func(a, b int) bool {
 		if sc.events[a].t != sc.events[b].t {
 			return sc.events[a].t < sc.events[b].t
 		}
 		return sc.events[a].kind == 4 && sc.events[b].kind != 4
 	})
+	// what the kernel does to transmit batches from some point on: a short sendmmsg count,
+	// a refused call (the fallback then sends one by one), or both in a row
+	sc.faults = map[int][]int{}
+	for ei, ev := range sc.events {
+		if ev.kind == 0 && r.Intn(3) == 0 {
+			var d []int
+			for k := 0; k < 1+r.Intn(3); k++ {
+				d = append(d, r.Intn(4))
+			}
+			sc.faults[ei] = d
+		}
+	}
 	return sc
 }
 
@@ -352,7 +385,8 @@ func TestVerifC11Server(t *testing.T) {
 		var leasedEnd, inflightEnd int64
 		// The pipeline is built outside the bubble: some handlers start janitor goroutines
 		// that never exit, and a bubble must end with none of its goroutines blocked.
-		front := &vC11SFront{reqs: &sc.reqs}
+		var bubbleStart time.Time
+		front := &vC11SFront{reqs: &sc.reqs, start: &bubbleStart}
 		tail := &vC11STail{reqs: &sc.reqs, calls: &downCalls}
 		middleware.Reset()
 		middleware.Register(front.Name(), func(*config.Config) middleware.Handler { return front })
@@ -381,9 +415,12 @@ func TestVerifC11Server(t *testing.T) {
 			}
 			readerBurst := udpTXBurst{slot: e.workers}
 			start := time.Now()
+			bubbleStart = start
 			for _, rq := range sc.reqs {
 				rq.relCh = make(chan struct{})
+				rq.endAt.Store(int64(rq.arrive)) // never served: "returned" on arrival
 			}
+			senders := vC11WrapSenders(e)
 			now := 0
 			poll := func() {
 				buf := make([]byte, 4096)
@@ -439,6 +476,7 @@ func TestVerifC11Server(t *testing.T) {
 					go func() {
 						defer close(rq.done)
 						s.ServeMsg(parent, &vC11STransport{rq: rq, start: start}, msg)
+						rq.endAt.Store(int64(time.Since(start) / time.Millisecond))
 					}()
 					return
 				}
@@ -454,21 +492,30 @@ func TestVerifC11Server(t *testing.T) {
 				j.pc = srv
 				j.pktinfoLen = 0
 				j.rawSALen = 0
+				vC11ArmRaw(j, clAddr) // what the batched reader records: the client's kernel sockaddr
 				if rq.path == 2 && e.inline != nil {
 					if !e.serveInline(j, &readerBurst) {
 						e.enqueueCounted(j)
 					}
-					e.flushTX(&readerBurst)
 					return
 				}
 				e.enqueue(j)
 			}
-			for _, ev := range sc.events {
+			for ei, ev := range sc.events {
 				sleepTo(ev.t)
 				switch ev.kind {
 				case 0:
+					if sc.faults[ei] != nil {
+						// what the kernel will do to the next sends: short counts, refusals
+						senders.script(sc.faults[ei])
+					}
 					launch(ev.idx)
 					coqEvents = append(coqEvents, fmt.Sprintf("EArrive %d", ev.idx))
+					// one receive cycle = the datagrams of one instant; its replies leave as one batch
+					last := ei+1 >= len(sc.events) || sc.events[ei+1].t != ev.t || sc.events[ei+1].kind != 0 || sc.reqs[sc.events[ei+1].idx].path != 2 || sc.reqs[ev.idx].path != 2
+					if last {
+						e.flushTX(&readerBurst)
+					}
 				case 1:
 					sc.reqs[ev.idx].cancelF()
 					coqEvents = append(coqEvents, fmt.Sprintf("ECancel %d", ev.idx))
@@ -536,11 +583,11 @@ func TestVerifC11Server(t *testing.T) {
 			paths = append(paths, fmt.Sprintf("%d%%N", rq.path))
 			cancelled := rq.cancel >= 0
 			expired := rq.writes > 0 && rq.wtime >= deadline
-			obsCoq = append(obsCoq, fmt.Sprintf("mk_pobs %d %d %v %v %v %d %v", rq.writes, rq.class, rq.called.Load(), cancelled, expired, rq.wtime, rq.racy))
+			obsCoq = append(obsCoq, fmt.Sprintf("mk_pobs %d %d %v %v %v %d %v %d", rq.writes, rq.class, rq.called.Load(), cancelled, expired, rq.wtime, rq.racy, rq.endAt.Load()))
 			entered = append(entered, fmt.Sprint(rq.entered.Load()))
 			desc = append(desc, map[string]any{"i": i, "q": rq.name, "path": []string{"ServeMsg", "udp-ring", "udp-inline"}[rq.path], "arrive": rq.arrive, "read_age": rq.age, "deadline": deadline,
 				"hold": hold, "atts": fmt.Sprint(rq.atts), "cancel_at": rq.cancel, "release_at": rq.release,
-				"replies": rq.writes, "class": rq.class, "chain_entered": rq.entered.Load(), "resolver_standin": rq.called.Load(), "seen_at": rq.wtime})
+				"replies": rq.writes, "class": rq.class, "chain_entered": rq.entered.Load(), "resolver_standin": rq.called.Load(), "seen_at": rq.wtime, "returned_at": rq.endAt.Load()})
 			if rq.writes > 1 && goFail == "" {
 				goFail = fmt.Sprintf("query %d: %d replies", i, rq.writes)
 			}
